@@ -11,13 +11,14 @@ import csv
 import io
 import itertools
 import os
+import sys
 
 PROPERTY = "C05"
 LEVEL = "proof"
 LEAN_MODULES = ["Exetera.Props.C05"]
 THEOREMS = []
 EXHAUSTIVE = {"quick": True, "thorough": True}
-CASE_TIMEOUT = 30
+CASE_TIMEOUT = 60
 MODES = {"quick": ["jit", "nojit"], "thorough": ["jit", "nojit", "bounds"], "search": ["jit", "nojit"]}
 RULE = ("files are rendered from a cell grammar {empty, plain, leading/trailing blank, blank only, quoted separator, quoted "
         "doubled quote, quoted newline, quoted blank, needlessly quoted, multi-byte UTF-8} with or without a final newline. "
@@ -630,3 +631,23 @@ def select_for_mode(case, mode, tier):
     if case["op"] == "csv_driver":
         return len(case["file"]) <= (14 if tier == "quick" else 24) and (tier != "quick" or case["crs"] % 2 == 1)
     return len(case["file"]) <= 30 and tier != "quick"
+
+
+# ------------------------------------------------------------------------------------------------------------------
+# worker warm-up: import ExeTera and compile the kernels before the first case, outside worker.py's per-case alarm
+# (an alarm that fires inside numba's compilation pipeline leaves its type registry half initialised: every later
+# compilation in that process then fails with TypingError)
+# ------------------------------------------------------------------------------------------------------------------
+def _warmup():
+    data = b"a,bb\nx,1\n\"y\",2\n"
+    impl(mk_kernel(data, 0, 2, 4, [8, 8], True))
+    impl(mk_driver(data, 2, 4, [8, 8]))
+    impl(mk_import(data, ["a", "bb"], ["i", "n"], 4))
+    impl(mk_import(data, ["a", "bb"], [1, "i"], 4))
+
+
+if os.path.basename(sys.argv[0]) == "worker.py":
+    try:
+        _warmup()
+    except Exception:       # noqa  (a broken tree must surface as case results, not as a dead worker)
+        pass
